@@ -74,9 +74,35 @@ Theorem C11_no_loss_below_head : forall (hash_hdr : header -> N) (root : list N 
 Proof. exact no_loss_below_head. Qed.
 Print Assumptions C11_no_loss_below_head.
 
+(** restarting is idempotent.  A clean restart of a sane ledger (ledger.New on its disk) succeeds,
+    leaves the disk unchanged, gives a sane ledger again, and the read-only view ledger
+    (a second NewSimpleLedger on the same state store, as internal/app creates it right after
+    ledger.New) opens too *)
+Theorem C11_restart_sane : forall (hash_hdr : header -> N) (root : list N -> N) (sroot : N -> N -> N) hs l,
+  sane hash_hdr root sroot hs l ->
+  exists l2, recover (l_disk l) = RecOk l2 /\ sane hash_hdr root sroot hs l2 /\ l_disk l2 = l_disk l /\
+             state_open (dk_state (l_disk l2)) <> None.
+Proof. exact restart_sane. Qed.
+Print Assumptions C11_restart_sane.
+
+(** after a crash in [Good]: the second start-up succeeds on the disk the first one left
+    (genesis included: the stale on-disk minHeight after a rollback to 0 must not matter),
+    leaves it unchanged, every later start-up gives exactly the same ledger, the ledgers are
+    indistinguishable, and the view ledger opens *)
+Theorem C11_recover_idempotent : forall (hash_hdr : header -> N) (root : list N -> N) (sroot : N -> N -> N),
+  (forall a b, hash_hdr a = hash_hdr b -> a = b) ->
+  forall bs l b (S : uset), sane hash_hdr root sroot bs l -> wf_blocks (bs ++ [b]) -> Good S = true ->
+  exists l1 l2, recover (crash hash_hdr root sroot S l b) = RecOk l1 /\
+                recover (l_disk l1) = RecOk l2 /\ l_disk l2 = l_disk l1 /\
+                recover (l_disk l2) = RecOk l2 /\
+                (forall U, observe_ledger U l2 = observe_ledger U l1) /\
+                state_open (dk_state (l_disk l1)) <> None.
+Proof. exact recover_idempotent. Qed.
+Print Assumptions C11_recover_idempotent.
+
 (** the predicate the judge evaluates on outcomes ([outcome_ok_b]: restart succeeded, restarted
     ledger consistent in itself and equal to the uncrashed one at n or n+1, continuation
-    reached the end with the uncrashed observations), evaluated on the MODEL's own experiment
+    reached the end with the uncrashed observations), evaluated on the MODEL's own experiment (death after S, TWO start-ups in a row each with the view ledger, continuation)
     with the model's own uncrashed references, is [Good S] -- for every pre-history, block,
     continuation and unit set whose universe reaches the final height *)
 Theorem C11_judge_predicate : forall (hash_hdr : header -> N) (root : list N -> N) (sroot : N -> N -> N),
